@@ -320,7 +320,7 @@ CHECKS = {
                  "seen an intervening commit (classes: after dml / ddl / growth / shrink / vacuum). Distinct = fingerprint of the spec."),
         "assumptions": ["system libsqlite3 (3.40.1) is writer and reference"],
         "min_nontrivial": {"quick": 150, "thorough": 3000},
-        "required_classes": ["handle-opened-mid-transaction", "reads-refused-in-between", "read-while-sibling-handle-in-transaction", "read-while-another-connection-has-an-open-write-transaction", "read-after:dml", "read-after:ddl", "read-after:growth", "read-after:vacuum", "read-after:pagesize", "file-grew", "more-than-100-pages", "short-tail-row-read-twice"],
+        "required_classes": ["handle-opened-mid-transaction", "reads-refused-in-between", "read-while-sibling-handle-in-transaction", "read-while-another-connection-has-an-open-write-transaction", "read-after:dml", "read-after:ddl", "read-after:growth", "read-after:vacuum", "read-after:pagesize", "file-grew", "more-than-100-pages", "short-tail-row-read-twice", "index-redefined-under-its-name"],
         "timeout": {"quick": 400, "thorough": 2400},
         "jobs": [
             job("history", "c08", ["TestC08History"], 130, 2500, 4, 12),
@@ -358,7 +358,7 @@ CHECKS = {
                  "plus database/sql result sets read for k rows then closed / cancelled / drained. Non-trivial = at least one side action ran. Distinct = fingerprint of the spec."),
         "assumptions": ["Linux POSIX record locks; system libsqlite3 (3.40.1) is the writer"],
         "min_nontrivial": {"quick": 150, "thorough": 3000},
-        "required_classes": ["exit:normal", "exit:stop", "exit:error-column", "exit:fault", "exit:panic", "side:commit-attempt", "side:peer-hold", "side:other-file", "side:same-process-read", "side:nested-call-inside-callback", "side:same-process-close-then-read", "side:open-while-writer-pending:opened", "side:driver-failed-query-inside-read", "side:driver-connect-inside-read", "op:IndexedSelect-wr", "driver:cancel", "writer:open-txn", "writer:hot-journal", "writer:raw-exclusive", "concurrent:procs="],
+        "required_classes": ["side:peer-parked-on-a-forgotten-handle", "exit:normal", "exit:stop", "exit:error-column", "exit:fault", "exit:panic", "side:commit-attempt", "side:peer-hold", "side:other-file", "side:same-process-read", "side:nested-call-inside-callback", "side:same-process-close-then-read", "side:open-while-writer-pending:opened", "side:driver-failed-query-inside-read", "side:driver-connect-inside-read", "op:IndexedSelect-wr", "driver:cancel", "writer:open-txn", "writer:hot-journal", "writer:raw-exclusive", "concurrent:procs="],
         "timeout": {"quick": 400, "thorough": 2400},
         "jobs": [
             job("held", "c06", ["TestC06Held"], 220, 4000, 3, 10),
